@@ -29,7 +29,7 @@ RULE = ('each run = 20-40 validations of time locks on 1-3 simulated validators 
 REQUIRED_PROBES = ['t==c', 't==c-1', 't-now==thr', 't-now==thr-1', 'thr<=0',
                    'constraint_top_bit', 'encoding_len_9', 'step_between_reads',
                    'mixed_slack_reads', 'fractional_now', 'empty_window', 'default_timestamp'] + \
-    ['nested_' + n for n in ('if', 'call', 'eval', 'try', 'loop', 'scripthash')]
+    ['nested_' + n for n in ('if', 'else', 'call', 'eval', 'try', 'except', 'loop', 'scripthash')]
 
 KINDS = ['cts', 'ctsv', 'ce', 'cev', 'after', 'afterv', 'before', 'beforev',
          'between', 'betweenv']
@@ -220,7 +220,7 @@ def build_lock(step):
     return T.make_timestamp_between_lock(step['c'], step['c2'], v)
 
 
-NESTS = ['top', 'top', 'top', 'if', 'call', 'eval', 'try', 'loop', 'scripthash']
+NESTS = ['top', 'top', 'top', 'if', 'else', 'call', 'eval', 'try', 'except', 'loop', 'scripthash']
 
 
 def wrap(lock, nest, verify_form):
@@ -242,6 +242,15 @@ def wrap(lock, nest, verify_form):
         exc = c('false verify')
         return bytes([F.opcodes_inverse['OP_TRY_EXCEPT'][0]]) + len(lock.bytes).to_bytes(2, 'big') + \
             lock.bytes + len(exc).to_bytes(2, 'big') + exc
+    if nest == 'except':
+        # the check is the fallback path: it runs after the TRY clause has failed
+        tr = c('false verify')
+        return bytes([F.opcodes_inverse['OP_TRY_EXCEPT'][0]]) + len(tr).to_bytes(2, 'big') + tr + \
+            len(lock.bytes).to_bytes(2, 'big') + lock.bytes
+    if nest == 'else':
+        a = c('true pop0')
+        return c('false') + bytes([F.opcodes_inverse['OP_IF_ELSE'][0]]) + len(a).to_bytes(2, 'big') + a + \
+            len(lock.bytes).to_bytes(2, 'big') + lock.bytes
     if nest == 'loop':
         body = lock.bytes + c('false')
         code = c('true') + bytes([F.opcodes_inverse['OP_LOOP'][0]]) + len(body).to_bytes(2, 'big') + body
